@@ -58,7 +58,9 @@ def control_payload():
     )
 
 
-CLOSE_CODES = [1000, 1001, 1002, 1003, 1007, 1008, 1009, 1010, 1011, 3000, 3999, 4000, 4999]
+# 1012 (service restart) and 1013 (try again later) are IANA-registered close codes that lomond accepts;
+# 1014 and >= 5000 are left out (status debatable, see DESIGN.md)
+CLOSE_CODES = [1000, 1001, 1002, 1003, 1007, 1008, 1009, 1010, 1011, 1012, 1013, 3000, 3999, 4000, 4999]
 
 
 def close_code():
